@@ -115,7 +115,22 @@ class Scn:
 
 
 # ---- fault catalogue: name -> function(scn, rng) ----
-def f_type(s, r): s.cd_type = r.choice(["webauthn.create", "webauthn.get ", "Webauthn.get", ""])
+def _word_decoys(s, r):
+    # every short string the CHANGED source mentions and the pinned source did not: as client-data members whose (nested) values name the expected
+    # RP id / origin / challenge - whatever a new code path might look for
+    from harness import srcdict
+    ws = srcdict.words()
+    if not ws:
+        return
+    good = [s.rp_id, s.exp_origin if isinstance(s.exp_origin, str) else s.origin, authsim.b64u(s.challenge), True, 1]
+    inner = {w: good[i % len(good)] for i, w in enumerate(ws + ["rpId", "origin", "topOrigin", "challenge", "total", "instrument", "value", "id"])}
+    s.cd_extra = dict(s.cd_extra or {})
+    for w in ws:
+        s.cd_extra[w] = inner if r.random() < 0.7 else good[0]
+def f_type(s, r):
+    from harness import srcdict
+    s.cd_type = r.choice(["webauthn.create", "webauthn.get ", "Webauthn.get", "", "payment.get", "webauthn.GET", "public-key"] + srcdict.words())
+    _word_decoys(s, r)
 def f_challenge_other(s, r): s.sign_challenge = bytes(x ^ 0xFF for x in s.challenge)
 def f_challenge_trunc(s, r): s.sign_challenge = s.challenge[:-1] if r.random() < 0.5 else s.challenge + b"\x00"
 def f_challenge_b64_alias(s, r):
@@ -131,8 +146,9 @@ def f_challenge_b64_alias(s, r):
 def f_declared_alg_foreign(s, r):
     # the stored key declares an algorithm of ANOTHER key family (or an unregistered one); the signature is a genuine one of the key's own scheme
     fam = authsim.KINDS[s.kind][0]
-    foreign = {"ec": [-257, -258, -259, -37, -38, -39, -65535, -8, -35], "rsa": [-7, -36, -8, -35], "ed": [-7, -36, -257, -37]}[fam]
-    s.declared_alg = r.choice(foreign)
+    from harness import srcdict
+    foreign = {"ec": [-257, -258, -259, -37, -38, -39, -65535, -8, -35, -51, -52, -47, -9], "rsa": [-7, -36, -8, -35, -260], "ed": [-7, -36, -257, -37, -19, -53]}[fam] + srcdict.alg_ids()
+    s.declared_alg = r.choice([a for a in foreign if a != authsim.KINDS[s.kind][2]])
 def _keep_expected(s):
     if s.exp_origin is None:
         s.exp_origin = s.origin
